@@ -41,15 +41,18 @@ Definition model (k:tcase) : tape :=
   ++ eList eBytes (if via_socks pl then [fst (host_port_no_port (t_host k) (t_wss k))] else [])
   ++ eList eBytes (if proxied_ok && match t_proxy k with Some _ => true | None => false end
                    then [match tunnel_tls pl with Some n => [116;108;115;58] ++ n | None => [45] end] else [])
+  ++ [0]
   ++ eBool ok.
 
 (* the observation, decoded *)
 Record tobs := { o_fn : N; o_addr : bytes; o_first_tls : option bytes; o_connects : list bytes;
-                 o_auths : list bytes; o_socks : list bytes; o_btls : list bytes; o_ok : bool }.
+                 o_auths : list bytes; o_socks : list bytes; o_btls : list bytes;
+                 o_after_refusal : N (* bytes the proxy still received after refusing the CONNECT *); o_ok : bool }.
 Definition p_tobs : P tobs :=
   f <- pN ;; a <- pBytes ;; ft <- pOpt pBytes ;; cs <- pList pBytes ;; au <- pList pBytes ;;
-  so <- pList pBytes ;; bt <- pList pBytes ;; ok <- pBool ;;
-  ret {| o_fn := f; o_addr := a; o_first_tls := ft; o_connects := cs; o_auths := au; o_socks := so; o_btls := bt; o_ok := ok |}.
+  so <- pList pBytes ;; bt <- pList pBytes ;; ar <- pN ;; ok <- pBool ;;
+  ret {| o_fn := f; o_addr := a; o_first_tls := ft; o_connects := cs; o_auths := au; o_socks := so; o_btls := bt;
+         o_after_refusal := ar; o_ok := ok |}.
 
 (* what the property says about credentials and names, stated directly *)
 Definition want_auth (k:tcase) : option bytes :=
@@ -75,7 +78,8 @@ Definition spec (k:tcase) (obs:tape) : option (N * tape) :=
   | Some (o, _) =>
       (* the first hop goes through the caller's own dial function whenever one is configured
          (NetDialTLSContext for a TLS first hop, else NetDialContext, else NetDial) *)
-      if negb (o_fn o =? e_fn (first_fn pl)) then Some (165, [o_fn o])
+      if negb (o_after_refusal o =? 0) then Some (166, [o_after_refusal o])    (* a non-200 reply aborts the dial: nothing more is sent *)
+      else if negb (o_fn o =? e_fn (first_fn pl)) then Some (165, [o_fn o])
       else
       (* every CONNECT carried exactly the configured credentials (or none) *)
       if negb (forallb (fun a => match want_auth k with Some w => beq a w | None => beq a [] end) (o_auths o)) then Some (162, [])
